@@ -324,13 +324,34 @@ def explore(item):
             'bad': [{'slot': slot, 'value': v, 'detail': r} for r, v in bad[:4]], 'nbad': len(bad)}
 
 
+MM_FILES = {     # a grammar with an import: both files define a common rule Item and an abstract rule Thing
+    'main.tx': "import base\nModel: items+=Item things+=Thing others+=Other;\nItem: 'i' name=ID;\nThing: Item | Note;\nNote: 'n' t=STRING;",
+    'base.tx': "Other: 'o' items+=Item things+=Thing;\nItem: 'bi' name=ID;\nThing: Item | Blob;\nBlob: 'b' v=INT;",
+}
+
+
+def _file_metamodel():
+    import os
+    import shutil
+    import tempfile
+    from textx import metamodel_from_file
+    d = tempfile.mkdtemp(prefix='c29g_')
+    try:
+        for fn, text in MM_FILES.items():
+            with open(os.path.join(d, fn), 'w') as f:
+                f.write(text)
+        return metamodel_from_file(os.path.join(d, 'main.tx'))
+    finally:
+        shutil.rmtree(d, ignore_errors=True)
+
+
 def metamodel_checks():
     from textx import metamodel_from_str
     from textx.export import metamodel_export_tofile, PlantUmlRenderer
     out = []
     n = 0
-    for g in MM_GRAMMARS:
-        mm = metamodel_from_str(g)
+    for g in MM_GRAMMARS + ['<files: main.tx imports base.tx>']:
+        mm = _file_metamodel() if g.startswith('<files') else metamodel_from_str(g)
         classes = [c for c in mm if getattr(c, '_tx_type', None) in ('common', 'abstract')
                    and c.__name__ not in ('OBJECT',)]
         buf = io.StringIO()
@@ -338,10 +359,14 @@ def metamodel_checks():
         try:
             metamodel_export_tofile(mm, buf)
             nodes, edges = parse_dot(buf.getvalue())
-            labels = ' '.join(a['label'][1] for a in nodes.values() if 'label' in a)
-            for c in classes:
-                if not re.search(r'(^|[{*])%s\|' % re.escape(c.__name__), labels):
-                    out.append({'kind': 'metamodel-dot', 'grammar': g, 'detail': 'no node for class %s' % c.__name__})
+            labels = [a['label'][1] for a in nodes.values() if 'label' in a]
+            for nm in {c.__name__ for c in classes}:
+                # classes of different grammar files may share a short name: one node each
+                want = sum(1 for c in classes if c.__name__ == nm)
+                have = sum(1 for lab in labels if re.search(r'(^|[{*])%s\|' % re.escape(nm), lab))
+                if have < want:
+                    out.append({'kind': 'metamodel-dot', 'grammar': g,
+                                'detail': '%d node(s) for the %d class(es) named %s' % (have, want, nm)})
             for nid, attrs in nodes.items():
                 lab = attrs.get('label')
                 if lab is not None and lab[0] == 'str':
@@ -361,8 +386,9 @@ def metamodel_checks():
             if not text.strip().startswith('@startuml') or not text.strip().endswith('@enduml'):
                 out.append({'kind': 'plantuml', 'grammar': g, 'detail': 'missing @startuml/@enduml'})
             for c in classes:
-                if not re.search(r'class\s+%s\b' % re.escape(c.__name__), text):
-                    out.append({'kind': 'plantuml', 'grammar': g, 'detail': 'class %s not declared' % c.__name__})
+                # file-based grammars declare classes by their qualified name
+                if not re.search(r'class\s+%s(?![\w.])' % re.escape(c._tx_fqn), text):
+                    out.append({'kind': 'plantuml', 'grammar': g, 'detail': 'class %s not declared' % c._tx_fqn})
         except Exception as e:  # noqa
             out.append({'kind': 'plantuml', 'grammar': g, 'detail': '%s: %s' % (type(e).__name__, e)})
     return n, out
